@@ -44,6 +44,7 @@ import logging
 import multiprocessing
 import socket
 import time
+from contextlib import suppress
 from enum import Enum
 from io import TextIOWrapper
 from pathlib import Path
@@ -294,14 +295,18 @@ class Scheduler:
         await asyncio.wait(tasks, timeout=timeout)
 
     async def _gentle_kill(self, proc):
-        if proc is None:
+        if proc is None or proc.returncode is not None:
             return
 
-        proc.kill()
+        # The process may exit on its own at any moment; signalling a process
+        # that is already gone raises ProcessLookupError.
+        with suppress(ProcessLookupError):
+            proc.kill()
         await asyncio.sleep(1)
         if proc.returncode is None:
             await asyncio.sleep(10)
-            proc.terminate()
+            with suppress(ProcessLookupError):
+                proc.terminate()
         await proc.wait()
 
     async def try_handle_task(self, tid, name, script, working_dir, time_limit, deps):
